@@ -38,7 +38,18 @@ RULE = ("streams: long = one table of 1650 (thorough: up to 4000) rows whose fix
         "both orders, with and without a column in between (all header-row formats and NDJSON); xls = the read-only XLS sample against the XLSX sample; "
         "typed = workbooks of 1-3 sheets whose data cells are ints, floats, bools, empty cells and strs that look like them, stored as XLSX, ODS and "
         "(a sample) Numbers: the case carries the document as the third-party parser holds it (dumped by the runner through the library directly) "
-        "and what the facade delivers; the judge demands every stored sheet once, in order, every row, every cell unconverted. "
+        "and what the facade delivers; the judge demands every stored sheet once, in order, every row, every cell unconverted; "
+        "passes = SEVERAL passes over the rows of ONE Sheet object: one table of 0-4 rows (1-3 columns; also tables in which a data row "
+        "repeats the heading row) stored in ONE format per case (CSV, TAB, XLSX, ODS, Numbers, NDJSON, fixed text, EBCDIC RECFM N and F), "
+        "pass patterns full+full, take 1 + full, take 2 + full, full + take 1 + full and a single abandoned take 2 (thorough: also random patterns with take 0 and take 3), "
+        "every pass's rows read by name before the next pass starts, the abandoned iterator kept alive or dropped; the judge demands "
+        "the whole table of every later pass - with no exemption for the in-memory formats - and classifies the continuation of the "
+        "formats read from an open file as K-second-pass-differs only when it is exactly the model's; the same passes over every sheet of "
+        "the repository's sample workbooks (XLS included) and of generated workbooks of typed cells with 1-3 sheets (XLSX, ODS, Numbers), each "
+        "pass compared with the first rows of the stored sheet as the third-party parser holds it; "
+        "padded = in the shapes and cobol streams the EBCDIC file is additionally written with pad 1, 3 or 80 filler bytes after "
+        "every record and read with RECFM_F / RECFM_FB and an explicit lrecl = layout + pad, also with a layout of another length "
+        "bound first. "
         "Non-trivial = at least one data row (branch not 0); distinct = distinct case lines.")
 TRIVIAL_BRANCHES = [0]
 ASSUMPTIONS = [
@@ -66,9 +77,17 @@ ASSUMPTIONS = [
     "source order: the layout is handed to the model as (name, width) pairs; tied by this run",
     "bytes.decode('cp037') is the table Gen/Cp037.v printed from the CPython codec; the codec the source names is Gen/TextCodec.v (EstructP.codec_is_cp037)",
     "name_cleaner = C17 model (header() cannot raise)",
+    "several passes over one Sheet (stream passes, Props/C03e.v): for XLSX, ODS, XLS and Numbers the theorem C03e_second_pass_in_memory rests on the "
+    "same premise H_ext / H_num as C03_facade; what CSV, TAB, NDJSON, fixed text and EBCDIC deliver on later passes is proved from the model "
+    "alone (C03e_second_pass_file_backed) and is known finding K-second-pass-differs; a pass abandoned after k rows is "
+    "list(itertools.islice(sheet.rows(), k)) with the iterator kept referenced or dropped at once (islice(it, 0) never starts the generator); "
+    "modelled, not proved: csv.reader / iteration over an open text file / file.read consume exactly the records delivered, so that a new "
+    "reader over the same open file goes on at the next record; RECFM_N reads 32768 bytes ahead when it is created",
+    "EBCDIC records longer than the layout (C03e_fixed_ebcdic_padded): no premise; the filler bytes are arbitrary (the runner derives them "
+    "from a number drawn with the input), the judge recomputes the padded writer's image from the fillers found in the file",
 ]
 TRUSTED = [
-    "the runner's writers for fixed text and EBCDIC are checked by the judge against the Coq writers write_fixed_text / write_ebcdic "
+    "the runner's writers for fixed text and EBCDIC are checked by the judge against the Coq writers write_fixed_text / write_ebcdic / write_ebcdic_padded "
     "(the case carries the file image; a mismatch is reported as a malformed case)",
     "XLS cannot be written offline (no xlwt): covered by one read-only comparison of the sample files, typed cells not compared",
 ]
@@ -160,6 +179,66 @@ def _workbook(rng, kind, with_numbers, ctl=False):
     return wb
 
 
+PADS = [1, 3, 80]
+PASS_FORMATS = ["csv", "tab", "xlsx", "ods", "numbers", "ndjson", "fixed", "ebcdic-n", "ebcdic-f"]
+# -1 = a complete pass, k = the first k rows, then abandoned; the last pattern is ONE abandoned pass and nothing after it: no second
+# pass, so no format has an exemption there
+PASS_PATTERNS = [[-1, -1], [1, -1], [2, -1], [-1, 1, -1], [2]]
+
+
+def _passes_table(n, m, echo=None):
+    """n columns, m rows of distinct labels; echo = index of a data row that repeats the heading row"""
+    header = COBOL_NAMES[:n]
+    rows = [[f"r{i}c{j}" for j in range(n)] for i in range(m)]
+    if echo is not None and echo < m:
+        rows[echo] = list(header)
+    widths = [max([len(h)] + [len(r[j]) for r in rows]) + (j % 2) for j, h in enumerate(header)]
+    return {"name": "Sheet1", "header": header, "rows": rows, "widths": widths}
+
+
+def _passes_inputs(ctx):
+    rng = ctx.rng
+    quick = ctx.tier == "quick"
+    ctx.exhaustive.append("passes_rows<=4_x_5_patterns_x_9_formats")
+    count = 0
+    for m in range(5):
+        for pat in PASS_PATTERNS:
+            for fmt in PASS_FORMATS:
+                count += 1
+                yield "passes", {"kind": "passes", "fmt": fmt, "table": _passes_table(1 + (m + len(pat)) % 3, m), "pat": pat,
+                                 "hold": count % 2 == 0, "numbers": ["S", "T"]}
+    # a data row that repeats the heading row: when it is the row a later pass takes for its heading row, the names asked for
+    # are found again
+    for m, echo, pat in ((3, 1, [1, -1]), (4, 2, [2, -1]), (4, 1, [1, 1, -1])):
+        for fmt in PASS_FORMATS:
+            count += 1
+            yield "passes", {"kind": "passes", "fmt": fmt, "table": _passes_table(2, m, echo), "pat": pat,
+                             "hold": count % 2 == 0, "numbers": ["S", "T"]}
+    # every sheet of the repository's sample workbooks (the only XLS file there is; typed cells, empty cells) and of generated
+    # workbooks of typed cells with 1-3 sheets, read twice / abandoned and read again
+    for name, fmt in (("excel97_workbook.xls", "xls"), ("excel_workbook.xlsx", "xlsx"), ("ooo_workbook.ods", "ods"),
+                      ("numbers_workbook_13.numbers", "numbers"), ("numbers_workbook_09.numbers", "numbers")):
+        for pat in ([-1, -1], [1, -1]) if fmt != "xls" else PASS_PATTERNS:
+            count += 1
+            yield "passes", {"kind": "typed", "fmt": fmt, "sample": name, "tables": [], "numbers": [], "pat": pat, "hold": count % 2 == 0}
+    for i in range(6 if quick else 60):
+        wb = _typed_workbook(rng, ("xlsx", "ods", "xlsx", "ods", "xlsx", "numbers")[i % 6])
+        count += 1
+        wb["pat"], wb["hold"] = PASS_PATTERNS[i % len(PASS_PATTERNS)], count % 2 == 0
+        yield "passes", wb
+    if not quick:
+        for i in range(150):
+            n, m = rng.randint(1, 4), rng.randint(0, 4)
+            header = rng.sample(COBOL_NAMES, n)
+            widths = [rng.randint(1, 9) for _ in range(n)]
+            rows = [[_cobol_cell(rng, w, False, [c for c in LATIN if c.strip() == c and c] + header) for w in widths] for _ in range(m)]
+            pat = [rng.choice([-1, -1, 0, 1, 2, 3]) for _ in range(rng.randint(2, 4))]
+            for fmt in rng.sample(PASS_FORMATS, 3):
+                count += 1
+                yield "passes", {"kind": "passes", "fmt": fmt, "pat": pat, "hold": count % 2 == 0, "numbers": ["S 1", "Täble"],
+                                 "table": {"name": rng.choice(SHEET_NAMES), "header": header, "rows": rows, "widths": widths}}
+
+
 def inputs(ctx):
     rng = ctx.rng
     quick = ctx.tier == "quick"
@@ -170,7 +249,7 @@ def inputs(ctx):
             header = COBOL_NAMES[:n]
             widths = [3 + j for j in range(n)]
             rows = [[f"r{i}{j}" for j in range(n)] for i in range(m)]
-            yield "shapes", {"kind": "cobol", "numbers": [],
+            yield "shapes", {"kind": "cobol", "numbers": [], "pads": [1, 3, 80], "fill": 17 * n + m,
                              "tables": [{"name": "Sheet1", "header": header, "rows": rows, "widths": widths}]}
     # column names whose cleaned form (the $anchor the heading-row loader computes) equals ANOTHER column's name:
     # by-name access must go by the name asked for, in either column order
@@ -204,7 +283,12 @@ def inputs(ctx):
     for i in range(n_plain):
         yield "plain", _workbook(rng, "plain", i < n_num // 2)
     for i in range(n_cobol):
-        yield "cobol", _workbook(rng, "cobol", i < n_num // 2)
+        wb = _workbook(rng, "cobol", i < n_num // 2)
+        # records longer than the layout: one of the pads per workbook, the filler bytes a function of the number drawn here
+        wb["pads"] = [PADS[i % len(PADS)]]
+        wb["fill"] = rng.randrange(256)
+        yield "cobol", wb
+    yield from _passes_inputs(ctx)
     n_ctl, n_ctl_num = (10, 3) if quick else (60, 15)
     for kind in ("plain", "cobol"):
         for i in range(n_ctl):
@@ -295,6 +379,15 @@ def _write_numbers(path, tables, names):
 
 def _fixed_text(t):
     return "".join("".join(c.ljust(w) for c, w in zip(r, t["widths"])) + "\n" for r in t["rows"])
+
+
+def _ebcdic_image(t, pad=0, fill=0):
+    """the records back to back, each followed by pad filler bytes (any bytes: here a function of record, position and fill)"""
+    out = bytearray()
+    for i, r in enumerate(t["rows"]):
+        out += "".join(c.ljust(w) for c, w in zip(r, t["widths"])).encode("cp037")
+        out += bytes((fill + 31 * i + 7 * j) % 256 for j in range(pad))
+    return bytes(out)
 
 
 def _copybook(t):
@@ -450,9 +543,9 @@ def _observe_tables(inp, folder):
         per_table(7, ".txt", write_text, COBOL_Text_File, _bind_copybook)
         per_table(7, ".txt", write_text, COBOL_Text_File, lambda t: _bind_copybook(t, rebind=True))
 
-        def ebcdic(recfm, code, lrecl_of, rebind=False):
+        def ebcdic(recfm, code, lrecl_of, rebind=False, pad=0, fill=0):
             def write_bytes(p, t):
-                data = _fixed_text(t).replace("\n", "").encode("cp037")
+                data = _ebcdic_image(t, pad, fill)
                 with open(p, "wb") as f:
                     f.write(data)
                 lrecl = lrecl_of(t)
@@ -471,10 +564,116 @@ def _observe_tables(inp, folder):
         ebcdic(stingray.estruct.RECFM_F, 1, lambda t: sum(t["widths"]))        # lrecl given
         ebcdic(stingray.estruct.RECFM_F, 1, lambda t: None, rebind=True)       # lrecl from the layout, another layout bound first
         ebcdic(None, 0, lambda t: None, rebind=True)
+        # records longer than the layout (a reserved area the copybook does not name): RECFM_F and its alias RECFM_FB with the
+        # explicit lrecl = layout + pad; the filler bytes are arbitrary (a function of the number the input carries)
+        for pad in inp.get("pads", []):
+            for cls, code in ((stingray.estruct.RECFM_F, 1), (stingray.estruct.RECFM_FB, 2)):
+                ebcdic(cls, code, lambda t, pad=pad: sum(t["widths"]) + pad, pad=pad, fill=inp.get("fill", 0))
+            ebcdic(stingray.estruct.RECFM_F, 1, lambda t, pad=pad: sum(t["widths"]) + pad, rebind=True, pad=pad, fill=inp.get("fill", 0))
     W = [[S(t["name"]), [S(h) for h in t["header"]], [[S(c) for c in r] for r in t["rows"]]] for t in tables]
     names = [[S(s), S(tn)] for s, tn in inp["numbers"]]
     widths = [t["widths"] for t in tables] if cobol else []
     return [0, W, names, widths, formats]
+
+
+# ---------------------------------------------------------------- several passes over the rows of one Sheet object
+
+
+def _read_passes(make_wb, bind, headers, pat, hold):
+    """open -> sheet_iter -> bind the schema ONCE -> for every pass: rows() whole or its first k rows -> name(c).value()"""
+    opened = observe_call(make_wb, lambda wb: wb)
+    if opened[0] != 0:
+        return []
+    wb = opened[1]
+    kept = []
+    try:
+        sheets = observe_call(lambda: list(wb.sheet_iter()), lambda s: s)
+        if sheets[0] != 0:
+            return []
+        out = []
+        for i, sh in enumerate(sheets[1]):
+            probes = headers[i] if i < len(headers) else []
+            bound = observe_call(lambda: bind(sh, i), lambda x: x)
+            per = []
+            for k in pat:
+                if bound[0] != 0:
+                    per.append(bound)
+                    continue
+
+                def one_pass():
+                    it = sh.rows()
+                    if k < 0:
+                        return list(it)
+                    rows = list(itertools.islice(it, k))
+                    if hold:
+                        kept.append(it)          # the abandoned iterator stays alive until the workbook is closed
+                    return rows                  # ... or is dropped (and closed by the interpreter) here
+                got = observe_call(one_pass, lambda rows: rows)
+                if got[0] == 0:
+                    got = [0, [[observe_call(lambda c=c: row.name(c).value(), _val) for c in probes] for row in got[1]]]
+                per.append(got)
+            out.append([S(str(sh.name)), per])
+        return out
+    finally:
+        del kept[:]
+        observe_call(wb.close, lambda x: 0)
+
+
+def _observe_passes(inp, folder):
+    import stingray
+    from stingray import open_workbook, CSV_Workbook, COBOL_Text_File, COBOL_EBCDIC_File
+    import stingray.estruct
+    t, pat, hold, fmt = inp["table"], inp["pat"], inp["hold"], inp["fmt"]
+    headers = [t["header"]]
+    folder = Path(folder)
+    extra, widths = [], []
+    code = {"csv": 0, "tab": 1, "xlsx": 2, "ods": 3, "numbers": 4, "ndjson": 6, "fixed": 7, "ebcdic-n": 8, "ebcdic-f": 8}[fmt]
+    if fmt == "csv":
+        path = folder / "p.csv"
+        _write_csv(path, t)
+        got = _read_passes(lambda: open_workbook(path), _bind_header, headers, pat, hold)
+    elif fmt == "tab":
+        path = folder / "p.tab"
+        _write_csv(path, t, delimiter="\t")
+        got = _read_passes(lambda: CSV_Workbook(path, delimiter="\t"), _bind_header, headers, pat, hold)
+    elif fmt == "xlsx":
+        path = folder / "p.xlsx"
+        _write_xlsx(path, [t])
+        got = _read_passes(lambda: open_workbook(path), _bind_header, headers, pat, hold)
+    elif fmt == "ods":
+        path = folder / "p.ods"
+        _write_ods(path, [t])
+        got = _read_passes(lambda: open_workbook(path), _bind_header, headers, pat, hold)
+    elif fmt == "numbers":
+        path = folder / "p.numbers"
+        _write_numbers(path, [t], [inp["numbers"]])
+        got = _read_passes(lambda: open_workbook(path), _bind_header, headers, pat, hold)
+        gc.collect()
+    elif fmt == "ndjson":
+        path = folder / "p.ndjson"
+        _write_ndjson(path, t, True)
+        got = _read_passes(lambda: open_workbook(path), _bind_names(headers), headers, pat, hold)
+    elif fmt == "fixed":
+        path = folder / "p.txt"
+        text = _fixed_text(t)
+        with open(path, "w", newline="", encoding="utf-8") as f:
+            f.write(text)
+        extra, widths = [S(text), 0, -1], t["widths"]
+        got = _read_passes(lambda: COBOL_Text_File(path), _bind_copybook(t), headers, pat, hold)
+    else:
+        path = folder / "p.ebc"
+        data = _ebcdic_image(t)
+        with open(path, "wb") as f:
+            f.write(data)
+        widths = t["widths"]
+        if fmt == "ebcdic-f":
+            extra = [B(data), 1, -1]
+            got = _read_passes(lambda: COBOL_EBCDIC_File(path, recfm_class=stingray.estruct.RECFM_F), _bind_copybook(t), headers, pat, hold)
+        else:
+            extra = [B(data), 0, -1]
+            got = _read_passes(lambda: COBOL_EBCDIC_File(path), _bind_copybook(t), headers, pat, hold)
+    table = [S(t["name"]), [S(h) for h in t["header"]], [[S(c) for c in r] for r in t["rows"]]]
+    return [3, code, table, [S(inp["numbers"][0]), S(inp["numbers"][1])], widths, pat, [extra, got]]
 
 
 # ---------------------------------------------------------------- typed cells: the parser's document and the facade's reading
@@ -566,6 +765,10 @@ def _observe_typed(ctx, inp, folder):
         stored = content if fmt != "numbers" else [tb for sh in content for tb in sh[1]]
         # the probe names: str() of the cells of each sheet's first row, as the parser holds them
         headers = [[unS(c[-1]) for c in rows[0]] if rows else [] for _, rows in stored]
+        if "pat" in inp:
+            got = _read_passes(lambda: open_workbook(path), _bind_header, headers, inp["pat"], inp.get("hold", False))
+            gc.collect()
+            return [4, code, content, [[S(h) for h in hs] for hs in headers], inp["pat"], got]
         got = _read(lambda: open_workbook(path), _bind_header, headers)
         gc.collect()
         return [2, code, content, [[S(h) for h in hs] for hs in headers], got]
@@ -574,6 +777,10 @@ def _observe_typed(ctx, inp, folder):
         _write_typed(path, fmt, inp["tables"], inp["numbers"])
     headers = [t["header"] for t in inp["tables"]]
     content = _parser_document(path, fmt)
+    if "pat" in inp:
+        got = _read_passes(lambda: open_workbook(path), _bind_header, headers, inp["pat"], inp.get("hold", False))
+        gc.collect()
+        return [4, code, content, [[S(h) for h in hs] for hs in headers], inp["pat"], got]
     got = _read(lambda: open_workbook(path), _bind_header, headers)
     gc.collect()
     return [2, code, content, [[S(h) for h in hs] for hs in headers], got]
@@ -612,18 +819,28 @@ def observe(ctx, inp):
     with tempfile.TemporaryDirectory(prefix="c03_") as folder:
         if inp["kind"] == "typed":
             return _observe_typed(ctx, inp, folder)
+        if inp["kind"] == "passes":
+            return _observe_passes(inp, folder)
         return _observe_tables(inp, folder)
 
 
 def describe(inp):
     if inp["kind"] == "xls":
         return "read-only: sample/excel97_workbook.xls against sample/excel_workbook.xlsx"
+    if inp["kind"] == "typed" and "pat" in inp:
+        what = f"sample/{inp['sample']}" if "sample" in inp else (f"typed cells stored as {inp['fmt']}: " + "; ".join(
+            f"{t['name']!r} header={t['header']!r} rows={t['rows']!r}" for t in inp["tables"]) + (f" numbers={inp['numbers']!r}" if inp["numbers"] else ""))
+        return f"passes {inp['pat']!r} (-1 = complete, k = first k rows then abandoned) over every Sheet of {what}"
     if inp["kind"] == "typed" and "sample" in inp:
         return f"read-only: sample/{inp['sample']} through the facade against the document the parser holds"
     if inp["kind"] == "typed":
         return (f"typed cells stored as {inp['fmt']}: " + "; ".join(
             f"{t['name']!r} header={t['header']!r} rows={t['rows']!r}" for t in inp["tables"])
             + (f" numbers={inp['numbers']!r}" if inp["numbers"] else ""))
+    if inp["kind"] == "passes":
+        t = inp["table"]
+        return (f"passes {inp['pat']!r} (-1 = complete, k = first k rows then abandoned; iterator {'kept' if inp['hold'] else 'dropped'}) over one Sheet "
+                f"of a {inp['fmt']} file: {t['name']!r} header={t['header']!r} widths={t['widths']!r} rows={t['rows']!r}")
     return (f"{inp['kind']} workbook " + "; ".join(
         f"{t['name']!r} header={t['header']!r} widths={t['widths']!r} rows={t['rows']!r}" for t in inp["tables"])
         + (f" numbers={inp['numbers']!r}" if inp["numbers"] else ""))
